@@ -14,7 +14,7 @@ func initReturnExpressionNode() {
 		"#init",
 		func(_ *vm.Thread, args []value.Value) (value.Value, value.Value) {
 			var argValue ast.ExpressionNode
-			if !args[1].IsUndefined() {
+			if !args[1].IsUndefined() && !args[1].IsNil() {
 				argValue = args[1].MustReference().(ast.ExpressionNode)
 			}
 
